@@ -160,13 +160,45 @@ def check(run, project):
                "decoded from an input that ends at its root event (e.g. an empty input) returns [] instead of raising "
                "InputStreamBytesDepletedError", module=mod, node=rnode, func=fn.name,
                construct="silent return [stream-type guard]")
-        boundary = any("path" in norm(c) and ("from_string" in norm(c) or "root" in norm(c).lower()) for c in cj) and \
-            any(norm(c).endswith("value is ...") for c in cj)
+        # (an equality of the event's path with the root path, and `value is ...`: both in positive form)
+        boundary = any(isinstance(c, ast.Compare) and len(c.ops) == 1 and isinstance(c.ops[0], ast.Eq) and "path" in norm(c)
+                       and ("from_string" in norm(c) or "root" in norm(c).lower()) for c in cj) and \
+            any(isinstance(c, ast.Compare) and len(c.ops) == 1 and isinstance(c.ops[0], ast.Is) and norm(c).endswith("value is ...") for c in cj)
         run.ob("E3", boundary, "silent return only at a message boundary (root event of the next message)",
                "the silent return is not restricted to the root `...` event of a new message", module=mod, node=rnode,
                func=fn.name, construct="silent return [boundary guard]")
     if not silent:
         run.info("no silent end-of-stream return in the pump")
+    # ---- handlers of the pump: a constraint error is re-raised on every path (after the remaining bytes were attached), the
+    #      completion handler (StopIteration of the processor) ends the pump on every path - neither may fall back into the loop
+    def ends(stmts):
+        if not stmts:
+            return False
+        last = stmts[-1]
+        if isinstance(last, (ast.Raise, ast.Return)):
+            return True
+        if isinstance(last, ast.If):
+            return ends(last.body) and bool(last.orelse) and ends(last.orelse)
+        if isinstance(last, ast.Try):
+            return (ends(last.body) or ends(last.orelse)) and all(ends(h.body) for h in last.handlers) or ends(last.finalbody)
+        return False
+    for h in [h for h in ast.walk(fn) if isinstance(h, ast.ExceptHandler) and h.type is not None]:
+        t = norm(h.type)
+        trybody = getattr(h, "_parent", None)
+        sends = isinstance(trybody, ast.Try) and any(isinstance(c, ast.Call) and norm(c.func) == f"{roles.proc_var}.send"
+                                                     for b_ in trybody.body for c in ast.walk(b_))
+        if t == "StopIteration" and sends:
+            run.ob("E1", ends(h.body), f"completion handler at L{h.lineno} ends the pump on every path",
+                   "the handler of the processor's StopIteration can be left normally: after the processor has finished the pump "
+                   "goes on pushing into it instead of returning its result / reporting surplus input", module=mod, node=h,
+                   func=fn.name, construct="completion handler exit")
+        elif "Constraint" in t and sends:
+            rs = [r for r in ast.walk(h) if isinstance(r, ast.Raise)]
+            same = all(r.exc is None or (isinstance(r.exc, ast.Name) and r.exc.id == h.name) for r in rs)
+            run.ob("E1", ends(h.body) and bool(rs) and same, f"constraint errors caught at L{h.lineno} are re-raised on every path",
+                   "a constraint error of the processor is caught and not re-raised on every path: the violation is swallowed and the "
+                   "pump goes on with a processor that has failed", module=mod, node=h, func=fn.name,
+                   construct=f"re-raise in `except {t}`")
     # ---- superfluous: in the completion handler with a FRESH byte every path raises or warns
     sup_raise = [(n, st) for n, st, cls in F.raises if cls == SUPER]
     dep_raise = [(n, st) for n, st, cls in F.raises if cls == DEPL]
@@ -243,6 +275,10 @@ def check(run, project):
         first_loop = min((order(s_) for s_ in loops_top), default=None)
         reset = [a for a in assigns if isinstance(a.value, ast.Constant) and a.value.value is None and any(a is s_ for s_ in fn.body)
                  and (first_loop is None or order(a) < first_loop)]
+        captures = [a for a in assigns if not (isinstance(a.value, ast.Constant) and a.value.value is None)]
+        run.ob("E2", bool(captures), "the running command code follows the commands decoded",
+               f"`{cc_defs}` is never assigned from the <root>.commandCode event: the errors carry no (or a stale) command code",
+               module=mod, node=fn, func=fn.name, construct=f"{cc_defs} capture")
         is_param = cc_defs in [a.arg for a in fn.args.args]
         run.ob("E2", bool(reset) or not is_param, "the running command code starts as None",
                f"`{cc_defs}` is also a parameter of the pump and is not reset to None before the pull loop: the errors of a decode "
